@@ -20,7 +20,7 @@ RULE = ("12 real-binary projects (init / new [--format] / revision under all mod
 ASSUME = [
     "shipped schemas = /repo/schemas/*.json; generated schemas = output of /repo's vespertide-schema-gen built from the current working tree (cargo --frozen, target dir .cache/target_repo), both translated by tools/schema2coq.py (syntactic, trusted; unknown keywords make it fail)",
     "the validation relation `valid` (coq/serde/Model/SchemaOf.v) is tied to python-jsonschema 4.26 Draft2020-12 on every document of every run (K-schema, compared inside Coq)",
-    "proved for all values: valid (schema_of_X) (encode v) = Some true for MigrationPlan / TableDef / VespertideConfig (valid_encode_*), fuel irrelevance of the validator, the `bounded` refutations; per run by vm_compute: shipped-vs-generated equality (or the exact recorded difference) and generated = schema_of. NOT proved: decode_of_valid (bounded, schema-valid => parsed) for all documents; it is evaluated on every generated / mutated / schema-guided document (a test)",
+    "proved for ALL values / documents (no sampling): valid_encode_* (what the serialisers write validates), decode_of_valid_table / _plan (a document without repeated members that validates under the strict reading of the schema - `format` asserted as the Rust width of the field, 'integer' excluding 1.0: the complement of the class C15-integer-width-not-in-schema, Model/SchemaStrict.v - is accepted by the parser model), both transported to the shipped schema terms on every run through doc_eqb_eq; fuel irrelevance of the validator; the class refutations. The strict reading itself has no external reference implementation (python-jsonschema does not know uint32): K-schema ties the plain validator, the strict one differs by two stated clauses",
     "real-binary stream: `vespertide init`, `new [--format]` under every modelFormat and `revision` under every migrationFormat; YAML files are read back with the tool's own serde_yaml (hserde parse yaml2json) before schema validation; the empty `new` template is completed with an id primary-key column before the load test",
     "documents that repeat a member are outside the quantifier of 'schema-valid documents' (a validator sees the parsed map, the parser sees the text)",
     "the parser side is the K-serde model of C12 (see its assumptions: YAML text layer not modelled, integer literals in [2^63,2^64) at DefaultValue positions excluded)",
@@ -138,7 +138,7 @@ def schema_shards(res, verdicts, mutants):
             vd = verdicts[idx_map[k]]
             exp.append("[" + "; ".join("(%s, %s)" % (str(e["shipped"]).lower(), str(e["generated"]).lower()) for e in (vd or [])) + "]")
         src += SH_GN + "Definition expect : list (list (bool * bool)) := [\n" + ";\n".join(exp) + "\n].\n"
-        src += "Eval vm_compute in schema_mismatches sh gn shard_base cases expect.\nEval vm_compute in unbounded_bits cases.\n"
+        src += "Eval vm_compute in schema_mismatches sh gn shard_base cases expect.\nEval vm_compute in unbounded_bits cases.\nEval vm_compute in cov_cases sh cases.\n"
         f = os.path.join(d, "schema_%03d.v" % si)
         open(f, "w").write(src)
         files.append(f)
@@ -147,7 +147,7 @@ def schema_shards(res, verdicts, mutants):
         chunk = mutants[mi:mi + 100]
         src = "From VV.SERDE Require Import CorrSchema ShippedSchemas GeneratedSchemas.\n" + SH_GN
         src += "Definition docs : list (dkind * json) := [\n" + ";\n".join("(%s, %s)" % (KINDS[m["kind"]][1], m["gallina"]) for m in chunk) + "\n].\n"
-        src += "Eval vm_compute in map (doc_bits sh) docs.\n"
+        src += "Eval vm_compute in map (doc_bits sh) docs.\nEval vm_compute in map (cov_bits sh) docs.\n"
         f = os.path.join(d, "mutants_%03d.v" % (mi // 100))
         open(f, "w").write(src)
         mfiles.append(f)
@@ -159,6 +159,13 @@ def schema_shards(res, verdicts, mutants):
         r1 = list(ex.map(one, files))
         r2 = list(ex.map(one, mfiles))
     mism, unb, errors = [], {}, []
+    cov, mcov = {}, []
+
+    def nested(term):
+        try:
+            return json.loads(term.replace(";", ","))
+        except Exception:
+            return None
     for si, (f, rc, out) in enumerate(r1):
         if rc != 0:
             errors.append({"shard": os.path.basename(f), "log": out[-1200:]})
@@ -170,6 +177,14 @@ def schema_shards(res, verdicts, mutants):
             gi = si * per + k
             if gi < len(idx_map):
                 unb[idx_map[gi]] = [x == "true" for x in re.findall(r"true|false", bits)]
+        cv = nested(bl[2]) if len(bl) > 2 else None
+        if cv is None:
+            errors.append({"shard": os.path.basename(f), "log": "coverage bits not parsed"})
+        else:
+            for k, docs in enumerate(cv):
+                gi = si * per + k
+                if gi < len(idx_map):
+                    cov[idx_map[gi]] = docs
     mbits = []
     for f, rc, out in r2:
         if rc != 0:
@@ -178,7 +193,8 @@ def schema_shards(res, verdicts, mutants):
         bl = vflib.parse_eval_outputs(out)
         for bits in re.findall(r"\[((?:\s*(?:true|false)\s*;?)+)\]", bl[0]):
             mbits.append([x == "true" for x in re.findall(r"true|false", bits)])
-    return mism, unb, mbits, errors
+        mcov += nested(bl[1]) or [] if len(bl) > 1 else []
+    return mism, unb, mbits, errors, cov, mcov
 
 
 def run(tier, seed):
@@ -243,7 +259,7 @@ def run(tier, seed):
         return chk.finish()
     vj = json.load(open(vfile))
     verdicts, mutants = vj["verdicts"], vj["mutants"]
-    mism, unb, mbits, errors = schema_shards(res, verdicts, mutants)
+    mism, unb, mbits, errors, cov, mcov = schema_shards(res, verdicts, mutants)
     ndocs = sum(len(v) for v in verdicts if v)
     chk.cov["evaluations"] = ndocs + len(mutants)
     chk.cov["distinct_nontrivial"] = serderun.nontrivial(rows) + len({m["text"] for m in mutants})
@@ -305,6 +321,31 @@ def run(tier, seed):
                                    "schema_valid_mutants_parsed": sum(1 for m in mutants if m["serde_ok"]), "schema_valid_mutants": len(mutants),
                                    "written_documents_valid_under_shipped": sum(1 for r, vd in zip(rows, verdicts) if vd and r["kind"].startswith("rt_") and all(e["shipped"] for e in vd)),
                                    "written_documents": sum(1 for r, vd in zip(rows, verdicts) if vd and r["kind"].startswith("rt_"))}
+    # ---- how many documents fall under the hypotheses of the two directions proved for all documents
+    def tally(triples):
+        t = {"documents": len(triples), "schema_valid": 0, "under_decode_of_valid (no repeated member, strictly valid)": 0,
+             "of_those_accepted_by_the_parser_model": 0, "schema_valid_but_outside (integer-width class or repeated member)": 0,
+             "strictly_valid_but_not_plainly_valid (expected 0)": 0}
+        for v, s_, d in triples:
+            t["schema_valid"] += v
+            t["under_decode_of_valid (no repeated member, strictly valid)"] += s_
+            t["of_those_accepted_by_the_parser_model"] += (s_ and d)
+            t["schema_valid_but_outside (integer-width class or repeated member)"] += (v and not s_)
+            t["strictly_valid_but_not_plainly_valid (expected 0)"] += (s_ and not v)
+        return t
+    written = [t for i, docs in cov.items() if rows[i]["kind"].startswith("rt_") for t in docs]
+    mutated = [t for i, docs in cov.items() if rows[i]["kind"].startswith("mut_") for t in docs]
+    classes = res.get("classes", {})
+    rt_tp = [i for i, r in enumerate(rows) if r.get("kind") in ("rt_table", "rt_plan")]
+    chk.cov["theorem_coverage"]["decode_of_valid_*"] = {"tool_written": tally(written), "mutated": tally(mutated), "schema_guided_mutants": tally(mcov)}
+    chk.cov["theorem_coverage"]["valid_encode_*"] = {
+        "round_trip_values (TableDef, MigrationPlan)": len(rt_tp),
+        "in_image (under the hypothesis of valid_encode_table / valid_encode_plan)": sum(1 for i in rt_tp if classes.get(i) and classes[i][3]),
+        "config values (valid_encode_config has no hypothesis)": sum(1 for r in rows if r.get("kind") == "rt_config")}
+    contradiction = [t for t in written + mutated + mcov if t[1] and not t[2]]
+    if contradiction:      # cannot happen while Gen/C15Schemas.v compiles; reported, never hidden
+        rp = vflib.write_replay(PROP, "theorem:decode_of_valid", {"note": "a strictly valid document is rejected by the parser model", "count": len(contradiction)})
+        chk.violation(rp, True)
     samples = []
     for r, vd in zip(rows, verdicts):
         if vd and r["kind"] == "rt_plan" and len(samples) < 1:
